@@ -12,7 +12,8 @@ EXPLANATION = ("Progress of the producer. R1 (drain => published): whenever the 
                "re-invokes the reservation in every iteration and leaves only on a non-null result; a refusal is only issued after "
                "re-loading the published reader position. R3: every read pass that consumed bytes commits them (accumulator-guard "
                "idiom recognised by value flow). R4: 'cannot grow' is reported by nullptr (retryable), an error only for records "
-               "larger than the maximum.")
+               "larger than the maximum."
+               " R1c: 'empty' is reported only right after the consumer's cache was refreshed with an acquire load. R6/R7 (= C20.R5, C05.R2): cache reload, hold-back exemptions. Configuration C (QUILL_X86ARCH) is analysed in both tiers.")
 NOT_DECIDED = ("The finite-poll bound under all histories, unbounded queues whose maximum capacity is not a power of two "
                "(configuration arithmetic), fairness of the OS scheduler.")
 ASSUMPTIONS = ["the backend keeps polling (C07/C10 cover its liveness)", "a decoded record has non-zero size (accumulator guard idiom)"]
